@@ -50,9 +50,15 @@ K_UPDATE_POW = re.compile(rb'\(\s*(?:\+\+|--)[^()]*\)\s*\*\*')
 # K4: under KeepVarNames an else-block is dissolved into the enclosing block although it declares the same let/const name
 K_ELSE_LET = re.compile(rb'else\s*\{\s*(?:let|const|class)\b')
 # K5: the JSON minifier accepts a document that ends right after a colon and prints it without the colon
-K_JSON_COLON = re.compile(rb':\s*\Z')
+K_JSON_COLON = re.compile(rb':\s*(?:"(?:[^"\\]|\\.)*)?\Z')
 # K6: the text of an SVG style element is handed to the CSS minifier with its entity references intact (&lt; loses its ;)
 K_SVG_STYLE_ENT = re.compile(rb'<style\b[^>]*>[^<]*&', re.I)
+
+
+# K7: the XML and SVG minifiers decode &#0; to a raw NUL byte, which their own lexer rejects on the second pass
+K_XML_NUL = re.compile(rb'&#(?:0+|[xX]0+);')
+# K8: export{} is printed as the bare keyword export (SyntaxError)
+K_EXPORT_EMPTY = re.compile(rb'export\s*\{\s*\}')
 
 
 def has_known_construct(b):
@@ -74,6 +80,10 @@ def excluded(lang, opts, b):
         tags.append('K5')
     if lang in ('svg', 'html') and K_SVG_STYLE_ENT.search(b):
         tags.append('K6')
+    if lang in ('xml', 'svg', 'html') and K_XML_NUL.search(b):
+        tags.append('K7')
+    if lang in ('js', 'html') and K_EXPORT_EMPTY.search(b):
+        tags.append('K8')
     return tags
 
 
@@ -256,7 +266,28 @@ def adj_classes():
     return cls
 
 
-FUSE_PRONE = {'plus', 'minus', 'inc', 'dec', 'not', 'lt', 'div', 're', 'reg', 'res', 'in', 'inst', 'typeof', 'void', 'dot', 'n1', 'n0', 'nlead'}
+def fusion_critical(cls):
+    """predicate on class sequences: some neighbours may not be printed back to back.  Mirrors FusesPair / FusesTriple of
+    spec/JsLexAdj.tla (pair and triple tables are read from the module text); used only to PRIORITISE programs in the quick tier."""
+    txt = open(os.path.join(vlib.SPEC, 'JsLexAdj.tla')).read()
+    body = txt[txt.index('PunctFuse == {'):txt.index('AbsorbsEq ==')]
+    pairs = set(re.findall(r'<<"(\w+)", "(\w+)">>', body))
+    triples = set(re.findall(r'<<"(\w+)", "(\w+)", "(\w+)">>', txt[txt.index('FusesTriple(x, y, z) =='):txt.index('Concat(sq) ==')]))
+    wordy = {'id', 'this', 'typeof', 'void', 'in', 'inst'}
+    nums = {'n1', 'n0', 'ndot', 'nfrac', 'nlead', 'nexp', 'nhex', 'nbig'}
+    regex = {'re', 'reg', 'res'}
+    idpart = set(b'abcdefghijklmnopqrstuvwxyzABCDEFGHIJKLMNOPQRSTUVWXYZ0123456789$_')
+
+    def crit(p):
+        names = [cls[c - 1][0] for c in p]
+        for i in range(len(p) - 1):
+            x, y = names[i], names[i + 1]
+            fy = cls[p[i + 1] - 1][1][0]
+            if (x, y) in pairs or (x in wordy | nums | regex and fy in idpart) or (x in ('n1', 'n0') and fy == 46) or \
+               (x in ('dot', 'qdot') and 48 <= fy <= 57):
+                return True
+        return any(tuple(names[i:i + 3]) in triples for i in range(len(p) - 2))
+    return crit
 
 
 # ------------------------------------------------------------------------------------------- running
@@ -342,13 +373,15 @@ def validate(ctx, exe, cs, ids, tag, workers=None):
 
 def describe(cs, cid, rec, whys):
     c = cs.cases[cid]
+    data = open(c['file'], 'rb').read(401)
+    shown = ' input=%r' % data.decode('latin1') if len(data) <= 400 else ''
     gs = ['%s %d->%d' % (g['g'], g['bad0'], g['bad1']) for g in rec['goals'] if g['bad1'] > g['bad0']]
     s = '%s[%s] %s (%d bytes): ' % (c['lang'], c['opts'], c['origin'], rec['n0'])
     if gs:
         s += 'output rejected by independent parser where the input was accepted: ' + ', '.join(gs) + '; '
     if rec['acc1'] and not rec['acc2']:
         s += 'second pass failed: ' + rec['err2'][:160].replace('\n', ' ') + '; '
-    return s + 'clauses ' + '/'.join(sorted(set(whys)))
+    return s + 'clauses ' + '/'.join(sorted(set(whys))) + shown
 
 
 def tlc_jobs(ctx):
@@ -387,8 +420,9 @@ def run(ctx):
     th.start()
 
     cs = Cases(ctx)
-    docs = repo_documents()
-    tests = test_strings(ctx)
+    only_pinned = os.environ.get('VERIF_C09_ONLY') == 'pinned'     # maintenance switch used to (re)generate known/C09.txt
+    docs = repo_documents() if not only_pinned else []
+    tests = test_strings(ctx) if not only_pinned else collections.defaultdict(list)
     # (a) corpora and benchmark documents
     for lang, path, origin in docs:
         size = os.path.getsize(path)
@@ -426,6 +460,8 @@ def run(ctx):
             if not excluded(lang, 'names', b):
                 pools[lang].append(b)
     nmut = 2400 if quick else 40000
+    if only_pinned:
+        nmut = 0
     for k in range(nmut):
         lang = LANGS[k % len(LANGS)]
         r = rnd.random()
@@ -441,6 +477,8 @@ def run(ctx):
         cs.add(lang, o, data=m[:400000], origin='mut:' + op)
     # small edits of whole large documents (real-world size, embedded languages)
     nbig = 40 if quick else 600
+    if only_pinned:
+        nbig = 0
     for k in range(nbig):
         lang = LANGS[k % len(LANGS)]
         if not big[lang]:
@@ -463,12 +501,15 @@ def run(ctx):
             ctx.coverage['adjacency_' + cfg.replace('.cfg', '')] = len(seqs)
             progs += seqs
     uniq = sorted(set(tuple(p) for p in progs))
-    must = [p for p in uniq if len(p) <= 3 or sum(1 for c in p if cls[c - 1][0] in FUSE_PRONE) >= len(p) - 1]
-    rest = [p for p in uniq if p not in set(must)]
-    nrest = 3000 if quick else len(rest)
-    if quick and len(must) > 14000:
-        must = [p for p in must if len(p) <= 3] + vlib.sample([p for p in must if len(p) > 3], 8000, rnd)
-    chosen = must + vlib.sample(rest, nrest, rnd)
+    crit = fusion_critical(cls)
+    must = [p for p in uniq if crit(p)]
+    mset = set(must)
+    rest = [p for p in uniq if p not in mset]
+    ctx.coverage['adjacency_fusion_critical'] = len(must)
+    if quick:
+        must = vlib.sample(must, 4500, rnd)
+        rest = vlib.sample(rest, 1500, rnd)
+    chosen = must + rest if not only_pinned else []
     nadj = 0
     for p in chosen:
         src = b' '.join(cls[c - 1][1] for c in p)
@@ -489,7 +530,7 @@ def run(ctx):
             data = open(os.path.join(vlib.REPO, w['file']), 'rb').read()
         else:
             data = w['src'].encode('latin1')
-        cid = cs.add(w['lang'], w['opts'], data=data, origin='pinned', inline=w.get('inline', False), allow_known=True)
+        cid = cs.add(w['lang'], w['opts'], data=data, origin='pinned:' + w.get('what', '')[:2], inline=w.get('inline', False), allow_known=True)
         if cid is not None:
             pinned.append(cid)
 
@@ -533,6 +574,8 @@ def run(ctx):
         for pos in sorted(w1):
             i = sub[pos]
             reproduced += 1
+            if only_pinned:
+                print('PINNED-FAILS %s' % json.dumps(dict(cs.ident(i), key=vlib.case_key(cs.ident(i)))))
             rec = l1[pos]
             c = cs.cases[i]
             data = open(c['file'], 'rb').read()
@@ -627,3 +670,32 @@ META = dict(
          'accepts the input. Trusted: V8/acorn, Go standard parsers, x/net/html, the harness CSS tokenizer and path recogniser.',
     technique='TLA+ pipeline machine + lexical grammars, TLC trace validation of two-pass records, independent parsers as judges',
 )
+
+
+def _regen_known():
+    """maintenance: python3 tools/props/c09.py < output of `VERIF_C09_ONLY=pinned check.py --property C09`
+    rewrites known/C09.txt (one line per pinned witness that fails) and prunes known/C09.ndjson to those witnesses"""
+    import sys
+    fails = {}
+    for line in sys.stdin:
+        if line.startswith('PINNED-FAILS '):
+            o = json.loads(line[len('PINNED-FAILS '):])
+            fails[(o['lang'], o['opts'], o['inline'], o['sha1'])] = o['key']
+    rows = vlib.known_cases('C09')
+    keep, lines = [], []
+    for w in rows:
+        data = open(os.path.join(vlib.REPO, w['file']), 'rb').read() if 'file' in w else w['src'].encode('latin1')
+        k = (w['lang'], w['opts'], w.get('inline', False), sha(data))
+        if k in fails:
+            keep.append(w)
+            lines.append('known: property=C09 key=%s %s [%s, options %s, witness %s]' % (
+                fails[k], w['what'], w['lang'], w['opts'], w.get('file') or json.dumps(w['src'])))
+    vlib.write_ndjson(os.path.join(vlib.ROOT, 'known', 'C09.ndjson'), keep)
+    with open(os.path.join(vlib.ROOT, 'known', 'C09.txt'), 'w') as f:
+        f.write('# C09 known findings: generated by tools/props/c09.py _regen_known from known/C09.ndjson; never written at run time\n')
+        f.write('\n'.join(lines) + '\n')
+    print('kept %d of %d witnesses' % (len(keep), len(rows)))
+
+
+if __name__ == '__main__':
+    _regen_known()
